@@ -541,9 +541,13 @@ static void byz_on_record(Conn *c, int dir, int idx, const uint8_t *rec_in, size
 	}
 	/* anything else (CCS, CBC-protected Finished, data): raw byte-level damage, or a record of the same type whose
 	 * body has another (block-aligned or not, small or maximal) size than its receiver's staging buffer expects */
-	if (rng_chance(&r, 1, 3)) {
+	int is_fin = !tls13 && g_byz_ccs_seen[dir] && rec_in[0] == TLS_record_handshake;
+	if (rng_chance(&r, 1, is_fin ? 2 : 3)) {
 		static const size_t sizes[] = { 1, 16, 32, 48, 320, 336, 1024, 4096, 16384, 16400, 18432, 18433, 18437 };
-		size_t bl = sizes[rng_below(&r, 13)];
+		/* a protected Finished goes to a staging buffer of its own (TLS_FINISHED_RECORD_BUF_SIZE): block-aligned bodies
+		 * on both sides of that bound */
+		static const size_t fin_sizes[] = { 272, 288, 304, 320, 336, 352 };
+		size_t bl = is_fin && rng_chance(&r, 1, 2) ? fin_sizes[rng_below(&r, 6)] : sizes[rng_below(&r, 13)];
 		memcpy(plain, rec_in, 5);
 		rng_bytes(&r, plain + 5, bl > 64 ? 64 : bl);
 		if (bl > 64) memset(plain + 5 + 64, 0x3c, bl - 64);
@@ -619,7 +623,7 @@ static void byz_gen(Plan *p, uint64_t base_seed, uint64_t variant, int tier)
 		memset(f, 0, sizeof(*f));
 		f->kind = F_MUT; f->dir = dir;
 		f->rec = rng_chance(&v, 1, 3) ? g_btwin.big[dir] : (int64_t)rng_below(&v, (uint32_t)n);
-		if (g_btwin.fin[dir] > 0 && rng_chance(&v, 1, 6)) f->rec = g_btwin.fin[dir];     /* the first protected record (Finished) */
+		if (g_btwin.fin[dir] > 0 && rng_chance(&v, 1, 4)) f->rec = g_btwin.fin[dir];     /* the first protected record (Finished) */
 		f->a = (int64_t)(rng_u64(&v) >> 1);
 	}
 }
